@@ -107,6 +107,8 @@ impl Sub for FromSequences {
 pub enum Pseudo {
     Scalar(Fl),
     PerSymbol(Vec<Fl>),
+    /// built by the constructor for the scalar, then overwritten in place through `AsMut<[f32]>`
+    InPlace(Fl, Vec<Fl>),
 }
 
 #[derive(Clone, Debug, Serialize, Deserialize)]
@@ -133,6 +135,13 @@ fn pseudo_of<A: Alphabet>(p: &Pseudo) -> (Pseudocounts<A>, Vec<f64>) {
         Pseudo::PerSymbol(xs) => {
             let arr: GenericArray<f32, A::K> = xs.iter().map(|x| x.0).collect();
             (Pseudocounts::from(arr), xs.iter().map(|x| x.0 as f64).collect())
+        }
+        Pseudo::InPlace(first, xs) => {
+            let mut p = Pseudocounts::<A>::from(first.0);
+            for (dst, x) in p.as_mut().iter_mut().zip(xs) {
+                *dst = x.0;
+            }
+            (p, xs.iter().map(|x| x.0 as f64).collect())
         }
     }
 }
@@ -277,7 +286,7 @@ impl Sub for Chain {
         "chain"
     }
     fn rule(&self) -> &'static str {
-        "count matrix (M 0..30, cells 0..1000, both alphabets) x pseudocounts (scalar or per-symbol) x background (uniform / from counts / dyadic, zero entries, non-zero wildcard) x second background x base {2,10,e,3.7,...}; to_freq, to_weight, to_scoring (one-step and two-step), to_scoring_with_base, rescale, min_score/max_score compared with the f64 definitions (tolerance 1e-5 relative); rows with zero total are excluded; non-trivial = M >= 2 and (non-uniform background or per-symbol pseudocounts or base != 2)"
+        "count matrix (M 0..30, cells 0..1000, both alphabets) x pseudocounts (scalar, per-symbol, or built for a scalar and then overwritten in place through AsMut) x background (uniform / from counts / dyadic, zero entries, non-zero wildcard) x second background x base {2,10,e,3.7,...}; to_freq, to_weight, to_scoring (one-step and two-step), to_scoring_with_base, rescale, min_score/max_score compared with the f64 definitions (tolerance 1e-5 relative); rows with zero total are excluded; non-trivial = M >= 2 and (non-uniform background or per-symbol pseudocounts or base != 2)"
     }
     fn cases(&self, tier: Tier) -> u64 {
         tier.pick(60_000, 1_500_000)
@@ -291,6 +300,7 @@ impl Sub for Chain {
                     let pseudo = prop_oneof![
                         3 => prop_oneof![Just(0.0f32), Just(0.1f32), Just(0.25), Just(1.0), 0.0f32..3.0].prop_map(|x| Pseudo::Scalar(Fl(x))),
                         2 => proptest::collection::vec(prop_oneof![Just(0.0f32), 0.0f32..2.0], k).prop_map(|v| Pseudo::PerSymbol(v.into_iter().map(Fl).collect())),
+                        1 => (prop_oneof![Just(0.0f32), Just(1.0f32)], proptest::collection::vec(prop_oneof![Just(0.0f32), 0.0f32..2.0], k)).prop_map(|(f, v)| Pseudo::InPlace(Fl(f), v.into_iter().map(Fl).collect())),
                     ];
                     (
                         Just(abc),
@@ -309,7 +319,8 @@ impl Sub for Chain {
     fn check(&self, case: &ChainCase, _cx: &Cx) -> Verdict {
         let mut info = CaseInfo::new();
         let m = case.counts.len();
-        info.nontrivial = m >= 2 && (case.bg != BgSpec::Uniform || matches!(case.pseudo, Pseudo::PerSymbol(_)) || case.base.0 != 2.0);
+        info.nontrivial = m >= 2 && (case.bg != BgSpec::Uniform || matches!(case.pseudo, Pseudo::PerSymbol(_) | Pseudo::InPlace(..)) || case.base.0 != 2.0);
+        info.class_if(matches!(case.pseudo, Pseudo::InPlace(..)), "pseudocounts-overwritten-in-place");
         info.class_if(case.abc == Abc::Protein, "protein");
         info.class_if(case.abc == Abc::Dna, "dna");
         let f1 = bg_freqs(case.abc, &case.bg);
